@@ -58,7 +58,9 @@ pub fn cases(prop: &str, tier: Tier, seed: u64) -> Vec<CaseDesc> {
     let q = tier == Tier::Quick;
     let mut out = Vec::new();
     // thorough: the generated part of every workload is 4x the figure given below
-    let g = |profile: &str, n_quick: u64, n_thorough: u64| -> Vec<String> { crate::gen::gen_specs(profile, seed, if q { n_quick } else { n_thorough * 4 }) };
+    // quick: 3x the figure given below (the whole quick tier stays within about half a minute per property);
+    // thorough: 4x
+    let g = |profile: &str, n_quick: u64, n_thorough: u64| -> Vec<String> { crate::gen::gen_specs(profile, seed, if q { n_quick * 3 } else { n_thorough * 4 }) };
     match prop {
         "C02" => {
             out.extend(with_scenario(crate::census::op_census_specs(), "rt:emit,gc"));
